@@ -25,7 +25,14 @@ def register(kernel):
            thm_params=[("avg_a", "R"), ("var_a", "option R"), ("len_a", "nat"), ("avg_b", "R"), ("var_b", "option R"), ("len_b", "nat")],
            gen_args="avg_a var_a (Z.of_nat len_a) avg_b var_b (Z.of_nat len_b)",
            model="(let '(m, v, n) := update_statistics ROps (avg_a, var_a, len_a) (avg_b, var_b, len_b) in (m, v, Z.of_nat n))",
-           model_name="Stats.update_statistics", imports=["Stats"], unfold="update_statistics scaled_var nofnat")
+           model_name="Stats.update_statistics", imports=["Stats"], unfold="update_statistics scaled_var nofnat",
+           cor_imports=["StatsR"],
+           corollaries=[("merge_is_one_pass",
+                         "forall a b : list R, (a <> [] \\/ b <> []) -> "
+                         "GEN (mean ROps a) (variance ROps a) (Z.of_nat (length a)) (mean ROps b) (variance ROps b) (Z.of_nat (length b)) = "
+                         "(mean ROps (a ++ b), variance ROps (a ++ b), Z.of_nat (length (a ++ b)))",
+                         "intros a b H; rewrite TIE; change (mean ROps a, variance ROps a, length a) with (stats ROps a); "
+                         "change (mean ROps b, variance ROps b, length b) with (stats ROps b); rewrite (merge_is_concat a b H); reflexivity")])
     for cls, f in (("ObservableBase", "qucumber/observables/observable.py"), ("System", "qucumber/observables/system.py")):
         common = dict(file=f, func=cls + ".statistics", kind="local",
                       inputs=[("initial_state", "init_len", OZ), ("num_chains", "num_chains", Z), ("num_samples", "num_samples", Z),
@@ -59,7 +66,11 @@ def register(kernel):
                inputs=[("epoch", "epoch", Z)], atoms=[("self.period", "period", Z)],
                coq_params=[("epoch", "Z"), ("period", "Z")], result=B,
                thm_params=[("epoch", "Z"), ("period", "Z")], gen_args="epoch period",
-               model="fires period epoch", model_name="Callbacks.fires", imports=["Callbacks"], unfold="fires")
+               model="fires period epoch", model_name="Callbacks.fires", imports=["Callbacks"], unfold="fires",
+               cor_imports=["CallbacksT"],
+               corollaries=[("period_gate_%s_iff_multiple" % cls,
+                             "forall epoch period : Z, (0 < period)%Z -> (GEN epoch period = true <-> (period | epoch)%Z)",
+                             "intros epoch period H; rewrite TIE; apply fires_divide; exact H")])
     for cls, f in (("MetricEvaluator", "qucumber/callbacks/metric_evaluator.py"),
                    ("ObservableEvaluator", "qucumber/callbacks/observable_evaluator.py")):
         kernel("C17", name="get_value_" + cls, file=f, func=cls + ".get_value",
@@ -81,7 +92,19 @@ def register(kernel):
     tp = [("getv", "option Z -> R"), ("getvar", "option Z -> R"), ("p", "nat")]
     back = "(Some (- Z.of_nat p - 1)%Z)"
     for nm, crit in (("_relative_change", "Relative"), ("_absolute_change", "Absolute"), ("_variance_scaled_abs_change", "Variance")):
+        cors = []
+        if crit == "Relative":
+            cors = [("relative_rule_without_division",
+                     "forall (getv getvar : option Z -> R) (p : nat) (tol : R), getv %s <> 0%%R -> "
+                     "(GEN getv getvar (Z.of_nat p) < tol <-> Rabs (getv %s - getv None) < tol * Rabs (getv %s))%%R" % (back, back, back),
+                     "intros getv getvar p tol H; rewrite TIE; exact (relative_rule_no_division (getv %s) (getv None) tol H)" % back)]
+        if crit == "Variance":
+            cors = [("variance_rule_without_division",
+                     "forall (getv getvar : option Z -> R) (p : nat) (tol : R), (0 < getvar %s)%%R -> "
+                     "(GEN getv getvar (Z.of_nat p) < tol <-> Rabs (getv %s - getv None) < tol * sqrt (getvar %s))%%R" % (back, back, back),
+                     "intros getv getvar p tol H; rewrite TIE; exact (variance_rule_no_division (getv %s) (getv None) (getvar %s) tol H)" % (back, back))]
         kernel("C18", name="deviation" + nm, func="EarlyStopping." + nm, inputs=[], atoms=getters, coq_params=gp, result=F,
+               corollaries=cors, cor_imports=["CallbacksT"],
                thm_params=tp, gen_args="getv getvar (Z.of_nat p)",
                model="es_deviation ROps %s (getv %s) (getv None) (getvar %s)" % (crit, back, back),
                model_name="Callbacks.es_deviation " + crit, unfold="es_deviation", **es)
@@ -109,7 +132,12 @@ def register(kernel):
                coq_params=[("N", "Z"), ("pos_bs", "Z")], result=Z,
                thm_params=[("N", "nat"), ("bs", "nat")], hyps=["(0 < bs)%nat"], gen_args="(Z.of_nat N) (Z.of_nat bs)",
                model="Z.of_nat (num_batches N bs)", model_name="Protocol.num_batches", imports=["Protocol"],
-               tactic="intros N bs H; cbv [GEN num_batches pyceil_div]; tie_zarith", **fit)
+               tactic="intros N bs H; cbv [GEN num_batches pyceil_div]; tie_zarith",
+               cor_imports=["ProtocolT"],
+               corollaries=[("num_batches_covers_the_data",
+                             "forall N bs : nat, (0 < bs)%nat -> "
+                             "(Z.of_nat N <= GEN (Z.of_nat N) (Z.of_nat bs) * Z.of_nat bs < Z.of_nat N + Z.of_nat bs)%Z",
+                             "intros N bs H; rewrite (TIE N bs H); destruct (num_batches_is_ceiling N bs H) as [A B]; lia")], **fit)
     kernel("C12", name="epoch_range", kind="range", loop_var="ep",
            inputs=[("starting_epoch", "start", Z), ("epochs", "epochs", Z)],
            coq_params=[("start", "Z"), ("epochs", "Z")], result=(Z, Z),
@@ -154,4 +182,9 @@ def register(kernel):
            gen_args="(option_map Z.of_nat size) (Z.of_nat nv) (Z.of_nat max_size)",
            model="match generate_hilbert_space (match size with Some (S k) => S k | _ => nv end) with None => true | Some _ => false end",
            model_name="Bits.generate_hilbert_space (refusal; default size = num_visible when size is None or 0)", imports=["Bits"],
-           tactic="intros size nv; cbv [GEN generate_hilbert_space option_map truthy_oz]; destruct size as [[|k]|]; cbn [Z.of_nat]; tie_split; tie_close")
+           tactic="intros size nv; cbv [GEN generate_hilbert_space option_map truthy_oz]; destruct size as [[|k]|]; cbn [Z.of_nat]; tie_split; tie_close",
+           cor_imports=["BitsT"],
+           corollaries=[("refused_iff_more_than_20_sites",
+                         "forall nv : nat, GEN None (Z.of_nat nv) (Z.of_nat max_size) = true <-> (20 < nv)%nat",
+                         "intros nv; change None with (option_map Z.of_nat (@None nat)); rewrite (TIE None nv); cbv [generate_hilbert_space max_size]; "
+                         "destruct (Nat.ltb 20 nv) eqn:E; [apply Nat.ltb_lt in E | apply Nat.ltb_ge in E]; split; intros; try reflexivity; try discriminate; lia")])
